@@ -175,14 +175,15 @@ func newWorld() *world {
 		)
 		c.Must(err)
 		// cmd/sso-auth/main.go:48 puts the whole mux behind http.TimeoutHandler
-		srv := httptest.NewUnstartedServer(http.TimeoutHandler(a.ServeMux, 30*time.Second, ""))
+		srv := httptest.NewUnstartedServer(http.TimeoutHandler(a.ServeMux, 240*time.Second, ""))
 		srv.Config.ErrorLog = log.New(io.Discard, "", 0) // "http: panic serving ..." lines
 		srv.Start()
 		w.authSrv[slug] = srv
 		w.cookieName[slug] = "_sso_auth_" + slug
 	}
+	providers.VerifSetHTTPTimeout(90 * time.Second) // shim: see shims/internal__auth__providers/shim.go
 	w.client = &http.Client{
-		Timeout:       20 * time.Second,
+		Timeout:       300 * time.Second,
 		Transport:     &http.Transport{MaxIdleConnsPerHost: 4, Proxy: nil}, // keep-alive: after a dropped connection net/http may retry the GET once on a fresh connection; the verdict (dropped) is the same
 		CheckRedirect: func(*http.Request, []*http.Request) error { return http.ErrUseLastResponse },
 	}
@@ -291,14 +292,14 @@ func (w *world) callback(sc scenario) cbObs {
 		var ne net.Error
 		if errors.As(err, &ne) && ne.Timeout() {
 			fmt.Fprintln(os.Stderr, "harness: callback round trip timed out:", err)
-			os.Exit(2)
+			os.Exit(3)
 		}
 		msg := err.Error()
 		if strings.Contains(msg, "EOF") || strings.Contains(msg, "connection reset") || strings.Contains(msg, "server closed") {
 			return cbObs{Dropped: true, Detail: msg}
 		}
 		fmt.Fprintln(os.Stderr, "harness: callback round trip failed for a reason of the harness's own:", err)
-		os.Exit(2)
+		os.Exit(3)
 	}
 	io.Copy(io.Discard, resp.Body)
 	resp.Body.Close()
